@@ -2610,3 +2610,27 @@ twin('C17', 'iterator-short-header-inverted', FSPY, 'FileIterator.__next__',
                 logger.warning("%s truncated at %s",
                                self._file.name, pos)
                 break''')
+
+# ---- F65 -------------------------------------------------------------------
+breaker('C16', 'ds-loadblob-asks-blobless-changes', 'C16.R13', DSPY,
+        'DemoStorage.loadBlob',
+        '''            if not self._changes_may_hold_blobs():
+                raise ZODB.POSException.POSKeyError(oid, serial)
+            return self.changes.loadBlob(oid, serial)''',
+        '''            return self.changes.loadBlob(oid, serial)''')
+breaker('C10', 'ds-loadserial-from-loadbefore', 'C16.R5', DSPY,
+        'DemoStorage.loadSerial',
+        '''            return self.base.loadSerial(oid, serial)''',
+        '''            r = self.base.loadBefore(
+                oid, ZODB.utils.p64(ZODB.utils.u64(serial) + 1))
+            if r is None:
+                raise ZODB.POSException.POSKeyError(oid, serial)
+            return r[0]''')
+twin('C10', 'ds-loadserial-from-loadbefore-checked', DSPY,
+     'DemoStorage.loadSerial',
+     '''            return self.base.loadSerial(oid, serial)''',
+     '''            r = self.base.loadBefore(
+                oid, ZODB.utils.p64(ZODB.utils.u64(serial) + 1))
+            if r is None or r[1] != serial:
+                raise ZODB.POSException.POSKeyError(oid, serial)
+            return r[0]''')
